@@ -172,8 +172,21 @@ def apply_edit(model, edit, fresh) -> str:
             tp.name = iv.name
             tp.data_type = int(old.dtype)
             tp.dims.extend(arr.shape)
+            field = (b >> 6) % 8
             if b % 2 and old.dtype == ir.DataType.FLOAT:
                 tp.float_data.extend(arr.ravel().tolist())
+            elif (b >> 5) % 2 and old.dtype == ir.DataType.FLOAT and field < 7:
+                # the same numbers stored through one of the other typed storage fields of TensorProto
+                flat = arr.ravel()
+                dt, fld, conv = [
+                    (onnx.TensorProto.INT64, "int64_data", lambda x: x.astype(np.int64)), (onnx.TensorProto.INT32, "int32_data", lambda x: x.astype(np.int32)),
+                    (onnx.TensorProto.DOUBLE, "double_data", lambda x: x.astype(np.float64)), (onnx.TensorProto.UINT64, "uint64_data", lambda x: x.astype(np.uint64)),
+                    (onnx.TensorProto.BOOL, "int32_data", lambda x: (x > 1).astype(np.int32)), (onnx.TensorProto.INT8, "int32_data", lambda x: x.astype(np.int8).astype(np.int32)),
+                    (onnx.TensorProto.FLOAT16, "int32_data", lambda x: x.astype(np.float16).view(np.uint16).astype(np.int32)),
+                ][field]  # fmt: skip
+                tp.data_type = dt
+                getattr(tp, fld).extend(conv(flat).tolist())
+                iv.type = ir.TensorType(ir.DataType(dt)) if iv.type is not None else None
             else:
                 tp.raw_data = arr.tobytes()
             iv.const_value = ir.serde.deserialize_tensor(tp)
@@ -318,7 +331,7 @@ def apply_edit(model, edit, fresh) -> str:
             except Exception:  # noqa: BLE001
                 pass
     elif kind == "seq_type" and v is not None:
-        v.type = ir.OptionalType(ir.SequenceType(ir.TensorType(ir.DataType.FLOAT))) if b % 2 else ir.SequenceType(ir.TensorType(ir.DataType.INT64))
+        v.type = [ir.OptionalType(ir.SequenceType(ir.TensorType(ir.DataType.FLOAT))), ir.SequenceType(ir.TensorType(ir.DataType.INT64)), ir.SparseTensorType(ir.DataType.FLOAT), ir.SequenceType(ir.SparseTensorType(ir.DataType.INT32)), ir.OptionalType(ir.TensorType(ir.DataType.BOOL))][b % 5]
     else:
         return "noop"
     return "ok"
